@@ -278,6 +278,9 @@ FIELD_CORPUS: List[Dict[str, Any]] = [
     {'obj': 4, 'sig': [], 'ret': 0, 'ctor': [['self', 0], ['a', 0], ['kw', 2]], 'unknown_base': False, 'gn': False,
      'fields': [['param', 'a'], ['param', 'zz'], ['keyword', 'k'], ['type', 'a'], ['ivar', 'v'], ['param', '**kw']]},
     {'obj': 4, 'sig': [], 'ret': 0, 'ctor': None, 'unknown_base': True, 'gn': False, 'fields': [['param', 'zz']]},
+    {'obj': 1, 'sig': [], 'ret': 1, 'ctor': None, 'unknown_base': False, 'gn': False,
+     'fields': [['param', '*'], ['type', 'self'], ['type', 'self'], ['returns', None]]},
+    {'obj': 2, 'sig': [], 'ret': 0, 'ctor': None, 'unknown_base': False, 'gn': False, 'fields': [['type', 'cls']]},
     {'obj': 6, 'sig': [], 'ret': 0, 'ctor': None, 'unknown_base': False, 'gn': False,
      'fields': [['type', None], ['type', 'x'], ['note', None]]},
 ]
@@ -432,7 +435,19 @@ def gen_doc(rng: random.Random, fmt: str) -> Dict[str, Any]:
             fields.append([rng.choice(['note', 'see', 'author', 'since', 'note']), None, body(), None])
         if rng.random() < 0.1:
             fields.append(['custom', None, body(), None])
+    for f in fields:
+        more = []
+        if rng.random() < 0.25:
+            more = [gen_inlines(rng, n=rng.randint(1, 5)) for _ in range(rng.randint(1, 2))]
+        f.append(more)
     return {'obj': obj, 'sig': sig, 'blocks': blocks, 'fields': fields}
+
+
+def field_tokens(f: List[Any]) -> List[str]:
+    out = inline_tokens(f[2])
+    for m in (f[4] if len(f) > 4 else []):
+        out += inline_tokens(m)
+    return out
 
 
 def gen_plaintext(rng: random.Random) -> str:
@@ -541,9 +556,12 @@ def serialise(doc: Dict[str, Any], fmt: str, width: int = 68) -> str:
         lines = ser_blocks(doc['blocks'], fmt, 0, width)
         if doc['fields']:
             lines.append('')
-        for kind, name, body, ty in doc['fields']:
+        for kind, name, body, ty, *rest in doc['fields']:
             head = '@' + EPY_TAG[kind] + ((' ' + name) if name else '') + ':'
             lines += wrap(inline_atoms(body, fmt), width, head + ' ', '    ')
+            for m in (rest[0] if rest else []):
+                lines.append('')
+                lines += wrap(inline_atoms(m, fmt), width, '    ', '    ')
             if ty:
                 head = '@' + TYPE_TAG[kind] + ((' ' + name) if (name and kind != 'return') else '') + ':'
                 lines += wrap(ty, width, head + ' ', '    ')
@@ -552,9 +570,12 @@ def serialise(doc: Dict[str, Any], fmt: str, width: int = 68) -> str:
         lines = ser_blocks(doc['blocks'], fmt, 0, width)
         if doc['fields']:
             lines.append('')
-        for kind, name, body, ty in doc['fields']:
+        for kind, name, body, ty, *rest in doc['fields']:
             head = ':' + RST_TAG[kind] + ((' ' + name) if name else '') + ':'
             lines += wrap(inline_atoms(body, fmt), width, head + ' ', '    ')
+            for m in (rest[0] if rest else []):
+                lines.append('')
+                lines += wrap(inline_atoms(m, fmt), width, '    ', '    ')
             if ty:
                 head = ':' + TYPE_TAG[kind] + ((' ' + name) if (name and kind != 'return') else '') + ':'
                 lines += wrap(ty, width, head + ' ', '    ')
@@ -577,7 +598,7 @@ def serialise(doc: Dict[str, Any], fmt: str, width: int = 68) -> str:
             lines.append('')
             if fmt == 'google':
                 lines.append(gname + ':')
-                for kd, name, body, ty in fs:
+                for kd, name, body, ty, *rest in fs:
                     atoms = inline_atoms(body, 'restructuredtext')
                     if kd == 'return':
                         head = (' '.join(ty) + ': ') if ty else ''
@@ -586,10 +607,13 @@ def serialise(doc: Dict[str, Any], fmt: str, width: int = 68) -> str:
                     else:
                         head = name + ((' (' + ' '.join(ty) + ')') if ty else '') + ': '
                     lines += wrap(atoms, width, '    ' + head, '        ')
+                    for m in (rest[0] if rest else []):
+                        lines.append('')
+                        lines += wrap(inline_atoms(m, 'restructuredtext'), width, '        ', '        ')
             else:
                 lines.append(nname)
                 lines.append('-' * len(nname))
-                for kd, name, body, ty in fs:
+                for kd, name, body, ty, *rest in fs:
                     atoms = inline_atoms(body, 'restructuredtext')
                     if kd == 'return':
                         lines.append(' '.join(ty) if ty else 'object')
@@ -598,6 +622,9 @@ def serialise(doc: Dict[str, Any], fmt: str, width: int = 68) -> str:
                     else:
                         lines.append(name + ((' : ' + ' '.join(ty)) if ty else ''))
                     lines += wrap(atoms, width, '    ', '    ')
+                    for m in (rest[0] if rest else []):
+                        lines.append('')
+                        lines += wrap(inline_atoms(m, 'restructuredtext'), width, '    ', '    ')
         return '\n'.join(lines)
     raise ValueError(fmt)
 
@@ -654,3 +681,79 @@ def expected(blocks: List[Any]) -> Tuple[List[str], List[Tuple[str, str]]]:
             toks += t
             pres += p
     return toks, pres
+
+
+# ------------------------------------------------------------------------------------------------ epytext inline markup
+EPY_SYMBOLS = {'alpha': 'α', '<-': '←', '->': '→', 'le': '≤', 'copy': '©', 'Omega': 'Ω', 'infinity': '∞'}
+INLINE_WORDS = ['alpha', 'x', 'Gamma', 'a<b', 'it\'s', 'é', '日本', 'end.', 'A', 'Z9', 'aB', 'ok?']
+
+
+def gen_inline_ast(rng: random.Random, depth: int = 0) -> List[Any]:
+    """list of items: ['c', text without braces] | ['t', letter, items] | ['b', items] | ['e', code] | ['s', name]
+       | ['l', letter, items, target|None]"""
+    out: List[Any] = []
+    for _ in range(rng.randint(1, 5)):
+        r = rng.random()
+        if r < 0.5 or depth >= 3:
+            out.append(['c', rng.choice(INLINE_WORDS) + rng.choice([' ', ' ', '', ', '])])
+        elif r < 0.7:
+            out.append(['t', rng.choice('BICM'), gen_inline_ast(rng, depth + 1)])
+        elif r < 0.78:
+            out.append(['b', gen_inline_ast(rng, depth + 1)])
+        elif r < 0.86:
+            out.append(['e', rng.choice(['lb', 'rb', '.', '@', 'é'])])
+        elif r < 0.92:
+            out.append(['s', rng.choice(list(EPY_SYMBOLS))])
+        else:
+            letter = rng.choice('LU')
+            label = [['c', rng.choice(['label', 'two words', 'a.b'])]]
+            if rng.random() < 0.4:
+                label.append(['t', rng.choice('BI'), [['c', 'em']]])
+                label.append(['c', ' tail'])
+            tgt = rng.choice(['mod.name', 'f', 'pkg.Cls.meth']) if letter == 'L' else rng.choice(['http://x.y/z', 'www.python.org'])
+            out.append(['l', letter, label, tgt])
+    # a literal-brace group must not follow an upper-case letter (it would be read as a tag)
+    fixed: List[Any] = []
+    for it in out:
+        if it[0] == 'b' and fixed and fixed[-1][0] == 'c' and fixed[-1][1][-1:].isupper() and fixed[-1][1][-1:].isascii():
+            fixed.append(['c', ' '])
+        fixed.append(it)
+    return fixed
+
+
+def inline_print(items: List[Any]) -> str:
+    out = ''
+    for it in items:
+        k = it[0]
+        if k == 'c':
+            out += it[1]
+        elif k == 't':
+            out += it[1] + '{' + inline_print(it[2]) + '}'
+        elif k == 'b':
+            out += '{' + inline_print(it[1]) + '}'
+        elif k == 'e':
+            out += 'E{' + it[1] + '}'
+        elif k == 's':
+            out += 'S{' + it[1] + '}'
+        else:
+            out += it[1] + '{' + inline_print(it[2]) + '<' + it[3] + '>}'
+    return out
+
+
+def inline_visible(items: List[Any]) -> str:
+    out = ''
+    for it in items:
+        k = it[0]
+        if k == 'c':
+            out += it[1]
+        elif k == 't':
+            out += inline_visible(it[2])
+        elif k == 'b':
+            out += '{' + inline_visible(it[1]) + '}'
+        elif k == 'e':
+            out += {'lb': '{', 'rb': '}'}.get(it[1], it[1])
+        elif k == 's':
+            out += EPY_SYMBOLS[it[1]]
+        else:
+            out += inline_visible(it[2])
+    return out
